@@ -8,9 +8,12 @@ Arguments bound_reg : simpl never.
 Lemma set_nth_pset x v env : set_nth x v env = pset x v env.
 Proof. revert env. induction x; destruct env; cbn; auto; try (now rewrite IHx). Qed.
 
+Section WithFt.
+Variable ft : nat -> option (nat * pcode).
+
 Lemma graftc_runs ls env rg t ky kn v b :
-  eval_ctree env t = ODone b -> pruns ls env rg (if b then ky else kn) v ->
-  pruns ls env rg (graftc t ky kn) v.
+  eval_ctree env t = ODone b -> pruns ft ls env rg (if b then ky else kn) v ->
+  pruns ft ls env rg (graftc t ky kn) v.
 Proof.
   revert b. induction t as [| | c a b0 y IHy n IHn]; intros b He Hr; cbn [graftc].
   - cbn in He. inversion He; subst. exact Hr.
@@ -51,6 +54,7 @@ Proof.
   - destruct (lower_list k es) as [ts|]; [|discriminate].
     destruct (Nat.eqb (length xs) (length ts)); inversion Hc; subst.
     now apply tup_sets_top_ok, tup_gets_top_ok.
+  - destruct (lower_list k args); inversion Hc; subst. exact Hn.
 Qed.
 
 Definition agree_below (n : nat) (rg' rg : nat -> Z) : Prop := forall r, (r < n)%nat -> rg' r = rg r.
@@ -75,7 +79,7 @@ Qed.
 
 Lemma tup_sets_runs ls env base ts vs (kn : pcode) v : forall rg,
   Forall2 (fun t x => eval_tree env t = ODone x) ts vs ->
-  pruns ls env (setregs base vs rg) kn v -> pruns ls env rg (tup_sets base ts kn) v.
+  pruns ft ls env (setregs base vs rg) kn v -> pruns ft ls env rg (tup_sets base ts kn) v.
 Proof.
   intros rg HF. revert base rg. induction HF as [|t x tr vr Ht _ IH]; intros base rg H; cbn [tup_sets setregs] in *.
   - exact H.
@@ -85,7 +89,7 @@ Qed.
 Lemma tup_gets_runs ls base (kn : pcode) v rg : forall xs vs env env',
   pset_list xs vs env = Some env' ->
   (forall i x, nth_error vs i = Some x -> rg (base + i)%nat = x) ->
-  pruns ls env' rg kn v -> pruns ls env rg (tup_gets base xs kn) v.
+  pruns ft ls env' rg kn v -> pruns ft ls env rg (tup_gets base xs kn) v.
 Proof.
   intros xs. revert base. induction xs as [|x xr IH]; intros base vs env env' Hs Hr H; destruct vs as [|v0 vr];
     cbn [pset_list tup_gets] in *; try discriminate.
@@ -98,10 +102,13 @@ Proof.
       now apply Hr.
 Qed.
 
-Section Sim.
+Variable fenv : nat -> option (nat * pstmt).
 Variable k : lowcfg.
 Hypothesis HS : sound_tabs k.
 Hypothesis HF : fd_exact k.
+(* the function table holds the compiled bodies of the module's functions *)
+Hypothesis Hft : forall f nloc body, fenv f = Some (nloc, body) ->
+  exists c, pcompile k 0 body KStuck KStuck KStuck = Some c /\ ft f = Some (nloc, c).
 
 Lemma expr_ok env e v t : eval64 env e = Some v -> lower k e = Some t -> eval_tree env t = ODone v.
 Proof. apply (lower_exact k env HS). apply fd_ok_all, HF. Qed.
@@ -126,20 +133,20 @@ Qed.
 (* what the continuations must do after outcome [out] of a statement at depth d *)
 Definition after (d : nat) (ls : list pcode) (rg : nat -> Z) (v : Z) (kn kb kc : pcode) (out : pout) : Prop :=
   match out with
-  | PNormal e' => forall rg', agree_below (2 * d) rg' rg -> pruns ls e' rg' kn v
-  | PBrk e' => forall rg', agree_below (2 * d) rg' rg -> pruns ls e' rg' kb v
-  | PCnt e' => forall rg', agree_below (2 * d) rg' rg -> pruns ls e' rg' kc v
+  | PNormal e' => forall rg', agree_below (2 * d) rg' rg -> pruns ft ls e' rg' kn v
+  | PBrk e' => forall rg', agree_below (2 * d) rg' rg -> pruns ft ls e' rg' kb v
+  | PCnt e' => forall rg', agree_below (2 * d) rg' rg -> pruns ft ls e' rg' kc v
   | PRet x => v = x
   end.
 
 Definition P (s : pstmt) (env : list Z) (out : pout) : Prop :=
   forall d kn kb kc c ls rg v, pcompile k d s kn kb kc = Some c -> length ls = d ->
     top_ok d kn -> top_ok d kb -> top_ok d kc ->
-    after d ls rg v kn kb kc out -> pruns ls env rg c v.
+    after d ls rg v kn kb kc out -> pruns ft ls env rg c v.
 
 Definition after0 (d : nat) (ls : list pcode) (rg : nat -> Z) (v : Z) (kn : pcode) (out : pout) : Prop :=
   match out with
-  | PNormal e' => forall rg', agree_below (2 * d) rg' rg -> pruns ls e' rg' kn v
+  | PNormal e' => forall rg', agree_below (2 * d) rg' rg -> pruns ft ls e' rg' kn v
   | PRet x => v = x
   | _ => True          (* a for loop never ends with break / continue *)
   end.
@@ -153,7 +160,7 @@ Definition P0 (x : nat) (body : pstmt) (l : list Z) (env : list Z) (out : pout) 
     rg (phi_reg d) = i -> rg (bound_reg d) = vb ->
     after0 d ls rg v kn out ->
     let L := KRCJ Clt (RReg (phi_reg d)) (RReg (bound_reg d)) (KGet x (phi_reg d) cb) kn in
-    pruns (ls ++ [L]) env rg L v.
+    pruns ft (ls ++ [L]) env rg L v.
 
 Lemma after_trans d ls rg rg1 v kn kb kc out :
   agree_below (2 * d) rg1 rg -> after d ls rg v kn kb kc out -> after d ls rg1 v kn kb kc out.
@@ -162,9 +169,9 @@ Proof.
     rewrite Hr by exact Hlt; now apply Ha.
 Qed.
 
-Theorem stmt_sim_all : (forall s env out, pexec s env out -> P s env out).
+Theorem stmt_sim_all : (forall s env out, pexec fenv s env out -> P s env out).
 Proof.
-  apply (pexec_mut P P0); unfold P, P0.
+  apply (pexec_mut fenv P P0); unfold P, P0.
   - (* pass *) intros env d kn kb kc c ls rg v Hc Hl Hn Hb Hk Ha. cbn in Hc. inversion Hc; subst.
     apply Ha. intros r _. reflexivity.
   - (* assign *) intros env x e v0 env' He Hs d kn kb kc c ls rg v Hc Hl Hn Hb Hk Ha. cbn [pcompile] in Hc.
@@ -200,11 +207,11 @@ Proof.
     inversion Hc; subst. set (L := graftc t cb kn).
     apply R_loop. rewrite firstn_all. eapply graftc_runs; [eapply cond_ok'; eauto|]. cbn.
     assert (BK : forall rg', agree_below (2 * S (length ls)) rg' rg ->
-                 pruns (ls ++ [L]) e1 rg' (KBack (length ls)) v).
+                 pruns ft (ls ++ [L]) e1 rg' (KBack (length ls)) v).
     { intros rg' Hr. eapply R_back.
       - rewrite nth_error_app2 by lia. rewrite Nat.sub_diag. reflexivity.
       - rewrite firstn_all2 by (rewrite app_length; cbn; lia).
-        assert (RL : pruns ls e1 rg' (KLoop (length ls) L) v).
+        assert (RL : pruns ft ls e1 rg' (KLoop (length ls) L) v).
         { eapply (IHw (length ls) kn kb kc _ ls rg' v); auto.
           - cbn [pcompile]. rewrite Lt, H1. reflexivity.
           - eapply after_trans; eauto. intros r Hlt. apply Hr. lia. }
@@ -212,7 +219,7 @@ Proof.
     eapply IHb; eauto.
     + rewrite app_length. cbn. lia.
     + cbn [top_ok]. lia.
-    + eapply top_ok_mono; [|exact Hn]. lia.
+    + refine (top_ok_mono _ ft _ _ _ _ Hn); lia.
     + cbn [top_ok]. lia.
     + destruct o1; cbn in Hcont; inversion Hcont; subst; cbn [after]; exact BK.
   - (* while break *) intros env c0 b e1 Hcv _ IHb d kn kb kc c ls rg v Hc Hl Hn Hb Hk Ha.
@@ -224,7 +231,7 @@ Proof.
     eapply IHb; eauto.
     + rewrite app_length. cbn. lia.
     + cbn [top_ok]. lia.
-    + eapply top_ok_mono; [|exact Hn]. lia.
+    + refine (top_ok_mono _ ft _ _ _ _ Hn); lia.
     + cbn [top_ok]. lia.
     + cbn [after] in *. intros rg' Hr. apply weaken; [|exact Hn]. apply Ha. intros r Hlt. apply Hr. lia.
   - (* while return *) intros env c0 b v1 Hcv _ IHb d kn kb kc c ls rg v Hc Hl Hn Hb Hk Ha.
@@ -236,7 +243,7 @@ Proof.
     eapply IHb; eauto.
     + rewrite app_length. cbn. lia.
     + cbn [top_ok]. lia.
-    + eapply top_ok_mono; [|exact Hn]. lia.
+    + refine (top_ok_mono _ ft _ _ _ _ Hn); lia.
     + cbn [top_ok]. lia.
   - (* for *) intros env x a b body va vb o Ea Eb _ IH0 d kn kb kc c ls rg v Hc Hl Hn Hb Hk Ha.
     cbn [pcompile] in Hc.
@@ -266,6 +273,13 @@ Proof.
     eapply tup_sets_runs; [eapply exprs_ok; eauto|].
     eapply tup_gets_runs; [exact Hs | intros i x Hi; now apply setregs_at |].
     apply Ha. intros r Hlt. apply setregs_below. unfold phi_reg. exact Hlt.
+  - (* call *)
+    intros env x f args vs nloc body rv env' He Hf _ IHc Hs d kn kb kc c ls rg v Hc Hl Hn Hb Hk Ha.
+    cbn [pcompile] in Hc. destruct (lower_list k args) as [ts|] eqn:Lt; inversion Hc; subst.
+    destruct (Hft f nloc body Hf) as (cf & Hcf & Hfc).
+    eapply R_call; [eapply exprs_ok; eauto | exact Hfc | | rewrite set_nth_pset; eassumption |].
+    + eapply (IHc 0%nat KStuck KStuck KStuck cf [] (fun _ => 0) rv); cbn; auto.
+    + apply Ha. intros r _. reflexivity.
   - (* for: range exhausted *)
     intros x body env d kn cb ls rg v i vb Hcb Hl Hn Hr Hi Hvb Hp Hbd Ha.
     set (L := KRCJ Clt (RReg (phi_reg d)) (RReg (bound_reg d)) (KGet x (phi_reg d) cb) kn).
@@ -283,7 +297,7 @@ Proof.
     destruct (i0 <? vb) eqn:E; [|lia].
     eapply R_get; [rewrite Hp, set_nth_pset; eassumption|].
     assert (INC : forall rg', agree_below (2 * S d) rg' rg ->
-                  pruns (ls ++ [L]) e1 rg' (KInc (phi_reg d) (KBack d)) v).
+                  pruns ft (ls ++ [L]) e1 rg' (KInc (phi_reg d) (KBack d)) v).
     { intros rg' Hag. apply R_inc. eapply R_back.
       - rewrite nth_error_app2 by lia. rewrite Hl, Nat.sub_diag. reflexivity.
       - rewrite firstn_all2 by (rewrite app_length; cbn; lia).
@@ -300,7 +314,7 @@ Proof.
     eapply (IHb (S d) (KInc (phi_reg d) (KBack d)) kn (KInc (phi_reg d) (KBack d)) cb (ls ++ [L]) rg v); eauto.
     + rewrite app_length. cbn. lia.
     + cbn [top_ok]. lia.
-    + eapply top_ok_mono; [|exact Hn]. lia.
+    + refine (top_ok_mono _ ft _ _ _ _ Hn); lia.
     + cbn [top_ok]. lia.
     + destruct o1; cbn in Hcont; inversion Hcont; subst; cbn [after]; exact INC.
   - (* for: break *)
@@ -314,7 +328,7 @@ Proof.
     eapply (IHb (S d) (KInc (phi_reg d) (KBack d)) kn (KInc (phi_reg d) (KBack d)) cb (ls ++ [L]) rg v); eauto.
     + rewrite app_length. cbn. lia.
     + cbn [top_ok]. lia.
-    + eapply top_ok_mono; [|exact Hn]. lia.
+    + refine (top_ok_mono _ ft _ _ _ _ Hn); lia.
     + cbn [top_ok]. lia.
     + cbn [after after0] in *. intros rg' Hag. apply weaken; [|rewrite Hl; exact Hn]. apply Ha.
       intros q Hq. apply Hag. lia.
@@ -329,18 +343,46 @@ Proof.
     eapply (IHb (S d) (KInc (phi_reg d) (KBack d)) kn (KInc (phi_reg d) (KBack d)) cb (ls ++ [L]) rg v); eauto.
     + rewrite app_length. cbn. lia.
     + cbn [top_ok]. lia.
-    + eapply top_ok_mono; [|exact Hn]. lia.
+    + refine (top_ok_mono _ ft _ _ _ _ Hn); lia.
     + cbn [top_ok]. lia.
 Qed.
-End Sim.
+End WithFt.
 
 (* whole function body: no enclosing loop, nothing after it *)
-Theorem body_exact k body env v c rg : sound_tabs k -> fd_exact k ->
-  pexec body env (PRet v) -> pcompile k 0 body KStuck KStuck KStuck = Some c ->
-  pruns [] env rg c v.
+Theorem body_exact ft fenv k body env v c rg : sound_tabs k -> fd_exact k ->
+  (forall f nloc b, fenv f = Some (nloc, b) ->
+     exists cf, pcompile k 0 b KStuck KStuck KStuck = Some cf /\ ft f = Some (nloc, cf)) ->
+  pexec fenv body env (PRet v) -> pcompile k 0 body KStuck KStuck KStuck = Some c ->
+  pruns ft [] env rg c v.
 Proof.
-  intros HS HF He Hc.
-  eapply (stmt_sim_all k HS HF body env (PRet v) He 0%nat KStuck KStuck KStuck c [] rg v); cbn; auto.
+  intros HS HF Hft He Hc.
+  eapply (stmt_sim_all ft fenv k HS HF Hft body env (PRet v) He 0%nat KStuck KStuck KStuck c [] rg v); cbn; auto.
+Qed.
+
+(* a module of functions calling each other (also recursively) *)
+Lemma compile_funs_table k : forall funs cs, compile_funs k funs = Some cs ->
+  forall f nloc b, nth_error funs f = Some (nloc, b) ->
+  exists cf, pcompile k 0 b KStuck KStuck KStuck = Some cf /\ nth_error cs f = Some (nloc, cf).
+Proof.
+  induction funs as [|[n0 b0] r IH]; intros cs Hc f nloc b Hf; [destruct f; discriminate|].
+  cbn [compile_funs] in Hc.
+  destruct (pcompile k 0 b0 KStuck KStuck KStuck) as [c0|] eqn:H0; [|discriminate].
+  destruct (compile_funs k r) as [cr|] eqn:Hr; [|discriminate]. inversion Hc; subst.
+  destruct f as [|f]; cbn in Hf |- *.
+  - inversion Hf; subst. eauto.
+  - eapply IH; eauto.
+Qed.
+
+Theorem module_exact k funs cs main nloc body args v rg : sound_tabs k -> fd_exact k ->
+  compile_funs k funs = Some cs -> nth_error funs main = Some (nloc, body) ->
+  pexec (nth_error funs) body (args ++ repeat 0 nloc) (PRet v) ->
+  exists c, nth_error cs main = Some (nloc, c) /\
+            pruns (nth_error cs) [] (args ++ repeat 0 nloc) rg c v.
+Proof.
+  intros HS HF Hc Hm He.
+  destruct (compile_funs_table k funs cs Hc main nloc body Hm) as (c & Hpc & Hn).
+  exists c. split; [exact Hn|].
+  eapply (body_exact (nth_error cs) (nth_error funs) k); eauto using compile_funs_table.
 Qed.
 
 (* ---- an inhabitant of the hypotheses (Props/C36.v c36_stmt_nonvacuous) *)
@@ -352,7 +394,7 @@ Definition ex36_body : pstmt :=
                    (PSAssign 1 (PBin PAdd (PVar 1) (PVar 2)))))
          (PSRet (PBin PFloorDiv (PVar 1) (PConst 2)))).
 Local Ltac ev := first [ reflexivity | vm_compute; reflexivity ].
-Lemma ex36_run : pexec ex36_body [3; 7; 9] (PRet 1).
+Lemma ex36_run : pexec (fun _ => None) ex36_body [3; 7; 9] (PRet 1).
 Proof.
   unfold ex36_body.
   eapply E_seq_n. { eapply E_assign; ev. }
@@ -363,4 +405,15 @@ Proof.
     eapply F_step; [ev | eapply E_seq_n; [eapply E_if; [ev|]; cbn; apply E_pass | eapply E_assign; ev] | ev |].
     apply F_done. }
   eapply E_ret. ev.
+Qed.
+
+Definition ex36_f0 : nat * pstmt := (0%nat, PSRet (PBin PMult (PVar 0) (PConst 2))).
+Definition ex36_main : nat * pstmt :=
+  (1%nat, PSSeq (PSCall 1 0 [PBin PAdd (PVar 0) (PConst 1)]) (PSRet (PVar 1))).
+Definition ex36_funs := [ex36_f0; ex36_main].
+Lemma ex36_module_run : pexec (nth_error ex36_funs) (snd ex36_main) ([4] ++ repeat 0 1%nat) (PRet 10).
+Proof.
+  cbn. eapply E_seq_n.
+  - eapply E_call; [ev | reflexivity | cbn; eapply E_ret; ev | ev].
+  - eapply E_ret. ev.
 Qed.
